@@ -49,13 +49,22 @@ struct Doc {
   bool number;
 };
 
+// `filter` (may be null): the same stream read with DeserializationOption::Filter; skipped parts must
+// be consumed exactly like parsed ones (the documents themselves are C11's business)
 template <typename ReaderT, typename PosFn>
 static void drive(cs::Ctx& ctx, bool msgpack, const std::string& stream, const std::vector<Doc>& docs, ReaderT& reader, PosFn pos,
-                  const char* kind, size_t upto, std::vector<size_t>* consumed_out) {
+                  const char* kind, size_t upto, std::vector<size_t>* consumed_out, const JsonDocument* filter = nullptr) {
   for (size_t i = 0; i < upto; i++) {
     JsonDocument doc;
-    DeserializationError err = msgpack ? deserializeMsgPack(doc, reader, DeserializationOption::NestingLimit(50))
-                                       : deserializeJson(doc, reader, DeserializationOption::NestingLimit(50));
+    DeserializationError err;
+    if (filter) {
+      JsonVariantConst fv = filter->as<JsonVariantConst>();
+      err = msgpack ? deserializeMsgPack(doc, reader, DeserializationOption::Filter(fv), DeserializationOption::NestingLimit(50))
+                    : deserializeJson(doc, reader, DeserializationOption::Filter(fv), DeserializationOption::NestingLimit(50));
+    } else {
+      err = msgpack ? deserializeMsgPack(doc, reader, DeserializationOption::NestingLimit(50))
+                    : deserializeJson(doc, reader, DeserializationOption::NestingLimit(50));
+    }
     ctx.executions++;
     std::string where = std::string(kind) + " call " + std::to_string(i + 1) + " of " + std::to_string(docs.size());
     if (err != DeserializationError::Ok) ctx.fail("document-not-returned", where + ": returned " + err.c_str());
@@ -63,7 +72,7 @@ static void drive(cs::Ctx& ctx, bool msgpack, const std::string& stream, const s
     oo.cross_checks = false;
     Val got = lib::observe(doc.as<JsonVariantConst>(), oo);
     std::string why;
-    if (!ref::same(docs[i].v, got, msgpack ? ref::num_by_value : num_tol, &why))
+    if (!filter && !ref::same(docs[i].v, got, msgpack ? ref::num_by_value : num_tol, &why))
       ctx.fail("wrong-document", where + ": " + why);
     size_t p = pos();
     if (p != (size_t)-1) {
@@ -103,6 +112,13 @@ static void run_case(cs::Src& s, cs::Ctx& ctx) {
       Val item = s.coin() ? Val::raw(mref::bin_bytes(data, width)) : Val::raw(mref::ext_bytes((int8_t)s.below(256), data, width));
       if (d.v.k == Val::Arr && s.coin()) d.v.a.push_back(item);
       else d.v = item;
+    }
+    if (s.chance(1, 4)) {  // strings whose spelling ends in escapes (quote look-ahead of parsers and skippers)
+      static const char* T[] = {"C:\\", "\\", "a\\\\", "\"", "\\\"", "'", "\\'"};
+      Val t = Val::str(T[s.below(7)]);
+      if (d.v.k == Val::Arr) d.v.a.push_back(t);
+      else if (d.v.k == Val::Obj && !d.v.find("zz")) d.v.o.push_back({"zz", t});
+      else if (d.v.k == Val::Str) d.v = t;
     }
     d.number = d.v.k == Val::Int || d.v.k == Val::Flt;
     if (msgpack) {
@@ -147,6 +163,17 @@ static void run_case(cs::Src& s, cs::Ctx& ctx) {
     JsonDocument doc;
     DeserializationError err = msgpack ? deserializeMsgPack(doc, r) : deserializeJson(doc, r);
     if (err != DeserializationError::EmptyInput) ctx.fail("no-empty-input-at-end", std::string("after the last document: ") + err.c_str());
+  }
+  // ---- the same stream read through a filter: what is skipped is consumed like what is parsed
+  {
+    static const char* F[] = {"false", "{\"a\":true}", "[true]", "[{\"zz\":true}]", "{\"*\":{\"a\":true}}", "null"};
+    const char* ftext = F[s.below(6)];
+    JsonDocument fdoc;
+    deserializeJson(fdoc, ftext);
+    lib::CountingReader r(stream);
+    std::string kind = std::string("custom reader with filter ") + ftext;
+    drive(ctx, msgpack, stream, docs, r, [&]() { return r.pos; }, kind.c_str(), n, nullptr, &fdoc);
+    ctx.label("filtered-stream");
   }
   // ---- std::istream
   {
